@@ -82,6 +82,30 @@ def Machine.line {σ τ} (M : Machine σ τ) (st : St σ τ) (line : String) : S
     ({ st with s := s' }, ["spec " ++ v])
   | _ => (st, [])
 
+/-- Two machines behind one driver: a case whose header satisfies `route` is handled by `B`, any other by `A`
+(used when one property is decided by two harness parts, e.g. a component-level and a Swarm-level one). -/
+def Machine.sum {σ τ σ' τ'} (route : List String → Bool) (A : Machine σ τ) (B : Machine σ' τ') :
+    Machine (Bool × σ × σ') (Bool × τ × τ') where
+  init cfg := (route cfg, A.init cfg, B.init cfg)
+  op st args :=
+    if st.1 then let (b, out) := B.op st.2.2 args; ((st.1, st.2.1, b), out)
+    else let (a, out) := A.op st.2.1 args; ((st.1, a, st.2.2), out)
+  specInit cfg := (route cfg, A.specInit cfg, B.specInit cfg)
+  spec st args outs :=
+    if st.1 then let (b, v) := B.spec st.2.2 args outs; ((st.1, st.2.1, b), v)
+    else let (a, v) := A.spec st.2.1 args outs; ((st.1, a, st.2.2), v)
+
+/-- a spec-only monitor running next to a machine on the same lines; the first failing verdict wins -/
+def Machine.withMonitor {σ τ μ} (A : Machine σ τ) (mInit : List String → μ)
+    (mon : μ → List String → List String → μ × String) : Machine σ (τ × μ) where
+  init := A.init
+  op := A.op
+  specInit cfg := (A.specInit cfg, mInit cfg)
+  spec st args outs :=
+    let (a, v) := A.spec st.1 args outs
+    let (m, w) := mon st.2 args outs
+    ((a, m), if v == "ok" then w else v)
+
 partial def loopAux {α} (h : IO.FS.Stream) (out : IO.FS.Stream) (f : α → String → α × List String) (st : α) : IO Unit := do
   let line ← h.getLine
   if line.isEmpty then return ()
